@@ -116,6 +116,14 @@ func judgeC18(c *core.Case, cfg *core.Config) core.Verdict {
 	}
 	if l.err != nil {
 		v.Classes = append(v.Classes, "both-fail")
+		// two sides that fail alike agree - unless nothing can fail there: when the reference evaluation of the left
+		// side is defined (and it is no budget matter), the library broke both sides in the same way
+		if c.X != nil && mode == "typed" && !isBudgetErr(l.err) && !isBudgetErr(r.err) {
+			var rlog []string
+			if ref := core.RefEval(c.X, spec.Build(&rlog), core.RefOpts{Excl: cfg.Excl}); ref.Fail == nil {
+				return fail("both sides fail although the evaluation is defined (reference = %s):\n  %s -> %s\n  %s -> %s", core.Show(ref.Value), src("lhs"), show(l), src("rhs"), show(r))
+			}
+		}
 		return v
 	}
 	// non-triviality: how the predicate behaves over xs
@@ -364,6 +372,7 @@ func genC18(t *rapid.T, cfg *core.Config) *core.Case {
 	set := func(lhs, rhs *core.X) {
 		c.P["lhs"], c.P["rhs"] = pr(lhs), pr(rhs)
 		parts = append(parts, lhs, rhs)
+		c.X = lhs
 	}
 	switch ident {
 	case "all/any", "none/any", "one/count", "count/filter", "filter-mask":
